@@ -23,7 +23,7 @@ for f in sorted((V / "known_findings").glob("C*.json")):
 print("\n### 9.3 Independently seeded breaking changes and which check catches them (seeded/*/)\n")
 print("| seed | property | what the change does | needs to manifest | result of `./check` |")
 print("|---|---|---|---|---|")
-for d in sorted((V / "seeded").iterdir()):
+for d in sorted(p for p in (V / "seeded").iterdir() if not p.name.startswith("_")):
     if not (d / "meta.json").exists():
         continue
     m = json.loads((d / "meta.json").read_text())
